@@ -224,7 +224,8 @@ META = {
                    "resulting paths the returned integer index is checked against the declarative definition by an "
                    "SMT query (QF_LRA). Holds for ALL real values for the stated lengths.",
     "bounds": {"quick": "len(x) in 1..6, len(lookup) in 1..4, fill_not_valid both, list and ndarray inputs, via the "
-                        "dispatcher and directly",
+                        "dispatcher and directly; concrete arrays of 33..40 elements; integer-typed arrays (int64 / list of ints, 1..5 "
+                        "elements incl. negative ones) with 1..2 symbolic real queries",
                "thorough": "len(x) in 1..8, len(lookup) in 1..5"},
     "outside": ["arrays longer than the bound", "float rounding in the tie test q - a <= b - q (evaluated over reals; "
                 "the +-1 ulp cases of the property text are not decided here)", "unsorted inputs (precondition)"],
